@@ -36,8 +36,12 @@ def main():
     subprocess.check_call(["rsync", "-a", "--exclude", ".git", "--exclude", "__pycache__", "--exclude", "_seeded",
                            "--exclude", "*.egg-info", "/repo/", d + "/"])
     os.makedirs(d + "/_seeded", exist_ok=True)
+    for f in os.listdir(os.path.dirname(demo)):   # demos may import helper modules next to them
+      if f.endswith(".py"):
+        shutil.copy(os.path.join(os.path.dirname(demo), f), d + "/_seeded/" + f)
     shutil.copy(demo, d + "/_seeded/demo.py")
-    env = dict(os.environ, TF_CPP_MIN_LOG_LEVEL="3", CUDA_VISIBLE_DEVICES="", PYTHONDONTWRITEBYTECODE="1")
+    env = dict(os.environ, TF_CPP_MIN_LOG_LEVEL="3", CUDA_VISIBLE_DEVICES="", PYTHONDONTWRITEBYTECODE="1",
+               PYTHONPATH=d)
     c0, o0, e0 = sh(["/venv/bin/python", "_seeded/demo.py"], cwd=d, env=env)
     res["demo_clean_exit"] = c0
     c, o, e = sh(["git", "apply", "--unsafe-paths", "--directory=" + d, patch], cwd="/")
@@ -67,12 +71,10 @@ def main():
         res["tests_" + t] = "%d/%d pinned pass" % (len(want & passed), len(want))
         if want - passed:
           res["tests_" + t] += " MISSING " + ",".join(sorted(want - passed))[:300]
-    evdir = os.path.join(HERE, "evidence")
-    backup = tempfile.mkdtemp(prefix="vt_ev_")
-    shutil.copytree(evdir, backup + "/e")
+    outdir = tempfile.mkdtemp(prefix="vt_out_")
     try:
       for pid in checks:
-        env2 = dict(os.environ, VT_REPO=d)
+        env2 = dict(os.environ, VT_REPO=d, VT_OUT=outdir)
         t = time.time()
         c, o, e = sh([os.path.join(HERE, "check"), pid, "--tier", tier], cwd=HERE, env=env2)
         viol = [l for l in o.splitlines() if l.startswith("VIOLATION")]
@@ -81,10 +83,7 @@ def main():
           idx = o.splitlines().index(viol[0])
           res["check_%s_first" % pid] = " | ".join(o.splitlines()[idx:idx + 2])[:500]
     finally:
-      shutil.rmtree(evdir, ignore_errors=True)
-      shutil.copytree(backup + "/e", evdir)
-      shutil.rmtree(backup, ignore_errors=True)
-      shutil.rmtree(os.path.join(HERE, "replays"), ignore_errors=True)
+      shutil.rmtree(outdir, ignore_errors=True)
   finally:
     shutil.rmtree(d, ignore_errors=True)
   print(json.dumps(res, indent=1))
